@@ -111,10 +111,37 @@ def replay(hist, npar):
     return None
 
 
+def check_binding(m, x, after, npar):
+    """None, or what the evaluators of m show instead of the binding `after`"""
+    is_rand = [t[0] < 0 for t in after]
+    theta = np.array([support(t)[0] if t[0] < 0 else value(t) for t in after])
+    r = np.asarray(m.eventRateVector(x, 0.0), float).reshape(-1)
+    exp_r = theta * np.array(x)
+    okv = all((support(t)[0] * x[k] * (1 - 1e-12) <= r[k] <= support(t)[1] * x[k] * (1 + 1e-12)) if is_rand[k]
+              else (r[k] == exp_r[k]) for k, t in enumerate(after))
+    if okv:
+        return None
+    return {"parameters_shown": (r / np.array(x)).tolist(),
+            "expected": [list(support(t)) if is_rand[k] else value(t) for k, t in enumerate(after)]}
+
+
 def replay_one(hist, npar, unknown):
     m, names = make_model(npar)
     x = X[:npar]
+    # a second model that is handed THE SAME dict object as m the first time m is bound by a complete dict containing a
+    # distribution (a user who configures two models from one settings dict); nothing done to m afterwards may reach it
+    other, other_after = None, None
     for c, step in enumerate(hist, start=1):
+        if other is None and step["act"] == "DictRandom" and len(step["names"]) == npar:
+            other, _ = make_model(npar)
+            shared = make_input(step, c, names, unknown)
+            try:
+                other.parameters = shared
+            except Exception as ex:
+                return {"step": c, "what": "accepted input form raised", "input": repr(shared), "raised": repr(ex)[:200]}
+            other_after = step["after"]
+        else:
+            shared = None
         raised = None
         if step["act"] == "Integrate":
             # a call that re-draws the names bound to distributions (and only those)
@@ -130,7 +157,7 @@ def replay_one(hist, npar, unknown):
             except Exception as ex:
                 raised = repr(ex)[:200]
         else:
-            inp = make_input(step, c, names, unknown)
+            inp = shared if shared is not None else make_input(step, c, names, unknown)
             try:
                 m.parameters = inp
             except Exception as ex:        # any exception counts as "rejected with an error"
@@ -164,6 +191,18 @@ def replay_one(hist, npar, unknown):
         if not (np.array_equal(r, exp_r) and np.array_equal(f, -exp_r) and np.array_equal(g, -np.diag(x))):
             return {"step": c, "what": "evaluation does not use the values bound by name",
                     "input": repr(inp), "rate_vector": r.tolist(), "expected": exp_r.tolist()}
+    if other is not None:
+        # the bystander: re-draw, then look at its binding
+        try:
+            other.initial_values = (np.array(x), np.float64(0.0))
+            other.integrate(np.array([2.0 ** -12]))
+            bad = check_binding(other, x, other_after, npar)
+        except Exception as ex:
+            bad = {"raised": repr(ex)[:200]}
+        if bad:
+            bad.update({"step": len(hist), "what": "a second model bound with the same dict object shows values given to the first",
+                        "input": "(dict shared at the first complete DictRandom)"})
+            return bad
     return None
 
 
